@@ -715,5 +715,5 @@ pub fn run(s: &Session) {
     s.note("unreachable_states", serde_json::json!(unreachable));
     s.note("triples", serde_json::json!(all.len()));
     s.foreach("triples", all, true, |t, obs| dispatch_triple(s, t, obs));
-    s.forall("walks", s.pick(20_000, 400_000), walk, |w, obs| dispatch_walk(s, w, obs));
+    s.forall("walks", s.pick(60_000, 1_000_000), walk, |w, obs| dispatch_walk(s, w, obs));
 }
